@@ -64,9 +64,16 @@ class Run:
     def generate(self, scn):
         d = self.ctx.tmp("mpig")
         out = d / ("mpi.app.v1.hex" if len(scn["vendor"]) % 2 else "mpi.hex")
+        v, c = scn["vendor"], scn["cls"]
         if scn.get("stale"):
             out.write_bytes(STALE)   # history: the output file exists already (left by an earlier invocation)
-        v, c = scn["vendor"], scn["cls"]
+            if scn["addr"] % 3 != 1:
+                # ... a VALID one: the same record generated for another address (the slot was moved in the memory map)
+                try:
+                    self.G.generate(str(out), v, c, (scn["addr"] + 0x1000) & 0xFFFFF000, scn["size"], scn["dp"], scn["iu"],
+                                    None if scn["sv"] == "none" else scn["sv"])
+                except Exception:
+                    out.write_bytes(STALE)
         sv = None if scn["sv"] == "none" else scn["sv"]
         err = None
         if scn.get("via") == "cli":
